@@ -290,7 +290,25 @@ type c10Inliner struct {
 	count   map[*core.FuncInfo]int
 	inlined map[*ast.CallExpr]*core.FuncInfo // source call expression -> callee whose body replaced it
 	skip    map[*ast.CallExpr]bool           // calls (of the view) that cannot be inlined where they stand
+	tail    map[*ast.CallExpr]bool           // calls (of the view) that are the last statement of a function body
 	nLabel  int
+}
+
+// markTail notes a call that is the whole last statement of a function body (results dropped): nothing
+// of the enclosing function runs after it, so the callee's deferred calls run at the same moment whether
+// they are registered by the callee or, in the view, by the enclosing function itself.
+func (in *c10Inliner) markTail(list []ast.Stmt) {
+	if len(list) == 0 {
+		return
+	}
+	if es, ok := list[len(list)-1].(*ast.ExprStmt); ok {
+		if call, ok := ast.Unparen(es.X).(*ast.CallExpr); ok {
+			if in.tail == nil {
+				in.tail = map[*ast.CallExpr]bool{}
+			}
+			in.tail[call] = true
+		}
+	}
 }
 
 // c10Inlined returns the inlined view of f (see the file comment). keep lists callees (canonical names)
@@ -316,6 +334,9 @@ func c10Inlined(f *core.FuncInfo, keep ...string) *core.FuncInfo {
 	}
 	cl := &c10Cloner{src: f.Info(), dst: in.info, origOf: in.origOf}
 	body := cl.stmt(f.Body).(*ast.BlockStmt)
+	if f.Type.Results == nil || len(f.Type.Results.List) == 0 {
+		in.markTail(body.List)
+	}
 	body.List = in.list(body.List, 3)
 	vf := &core.FuncInfo{P: f.P, Pkg: in.pkg, Obj: f.Obj, Decl: f.Decl, Lit: f.Lit, Parent: f.Parent, Name: f.Name, Body: body, Type: f.Type}
 	v := &c10View{F: vf, Orig: f, in: in}
@@ -375,6 +396,9 @@ func (in *c10Inliner) lits(v *c10View) {
 			}
 		}
 		in.stack = nil
+		if lit.Type.Results == nil || len(lit.Type.Results.List) == 0 {
+			in.markTail(lit.Body.List)
+		}
 		lit.Body.List = in.list(lit.Body.List, 3)
 		lf := &core.FuncInfo{P: in.p, Pkg: in.pkg, Lit: lit, Parent: v.F, Name: name, Body: lit.Body, Type: lit.Type}
 		lv := &c10View{F: lf, Orig: orig, in: in}
@@ -581,12 +605,15 @@ func (in *c10Inliner) callee(call *ast.CallExpr, depth int) *core.FuncInfo {
 	default:
 		return nil
 	}
-	// a deferred call of the callee would run at another time in the view; recover() changes meaning
+	// a deferred call of the callee would run at another time in the view (unless the call is the last
+	// thing the enclosing function does); recover() changes meaning
 	bad := false
 	g.InspectOwn(func(n ast.Node) bool {
 		switch x := n.(type) {
 		case *ast.DeferStmt:
-			bad = true
+			if !in.tail[call] {
+				bad = true
+			}
 		case *ast.CallExpr:
 			if id, ok := ast.Unparen(x.Fun).(*ast.Ident); ok && id.Name == "recover" {
 				bad = true
@@ -1204,6 +1231,9 @@ func (in *c10Inliner) inline(call *ast.CallExpr, g *core.FuncInfo, mode int, lhs
 		}
 	}
 	body := cl.stmt(g.Body).(*ast.BlockStmt)
+	if in.tail[call] && mode == c10ModeDiscard && nres == 0 {
+		in.markTail(body.List)
+	}
 	in.stack = append(in.stack, g)
 	body.List = in.list(body.List, depth-1)
 	in.stack = in.stack[:len(in.stack)-1]
